@@ -877,6 +877,11 @@ impl Transformer {
         // unless the whole document does.
         let mut buffer = Vec::new();
         self.postprocess(output, &mut buffer)?;
+        // A U+FEFF character which is content (written as a reference, or after a
+        // byte-order mark) must not become the byte-order mark of the output.
+        if buffer.starts_with("\u{FEFF}".as_bytes()) {
+            buffer.splice(..3, *b"&#xFEFF;");
+        }
         writer.write_all(&buffer).map_err(SvgdxError::from_err)
     }
 
